@@ -464,6 +464,71 @@ def _tailify(stmts):
     return out
 
 
+def _loop_form(body, mode, targets, at):
+    """Helper of the shape  <statements>; for ...: ... return v ...;
+    return D  (D a constant) used as `x = helper()`:
+        <statements>; x = D; for ...: ... x = v; break ...
+    (the shape a search loop has before it is extracted)."""
+    if len(body) < 2 or not isinstance(body[-1], ast.Return) or \
+            not isinstance(body[-2], ast.For) or body[-2].orelse:
+        raise _Site()
+    default = body[-1].value
+    if default is None:
+        default = ast.Constant(value=None)
+    if not isinstance(default, ast.Constant):
+        raise _Site()
+    if any(_contains_return(st) for st in body[:-2]):
+        raise _Site()
+
+    def assign(value, loc):
+        if mode != 'assign':
+            return []
+        return [ast.copy_location(ast.Assign(
+            targets=copy.deepcopy(targets), value=value,
+            lineno=loc.lineno), loc)]
+
+    def rewrite(stmts):
+        out = []
+        for st in stmts:
+            if isinstance(st, ast.Return):
+                v = st.value if st.value is not None else \
+                    ast.Constant(value=None)
+                out += assign(v, st)
+                out.append(ast.copy_location(ast.Break(), st))
+                return out
+            if isinstance(st, (ast.For, ast.While, ast.AsyncFor)):
+                if _contains_return(st):
+                    raise _Site()
+            elif isinstance(st, ast.If):
+                st.body = rewrite(st.body)
+                st.orelse = rewrite(st.orelse)
+            elif isinstance(st, (ast.With, ast.AsyncWith)):
+                st.body = rewrite(st.body)
+            elif isinstance(st, ast.Try):
+                if any(_contains_return(x) for x in st.finalbody):
+                    raise _Site()
+                st.body = rewrite(st.body)
+                st.orelse = rewrite(st.orelse)
+                for h in st.handlers:
+                    h.body = rewrite(h.body)
+            elif _contains_return(st):
+                raise _Site()
+            out.append(st)
+        return out
+    loop = body[-2]
+    loop.body = rewrite(loop.body)
+    return body[:-2] + assign(default, at) + [loop]
+
+
+def _structured(body, mode, targets, at):
+    """The helper body with its returns turned into assignments to
+    `targets` (mode 'assign') or dropped (mode 'discard')."""
+    try:
+        return _finish(_tailify(body), mode, targets, at)
+    except _Site:
+        return _loop_form(body, mode, targets, at)
+
+
 def _pass(at):
     return ast.copy_location(ast.Pass(), at)
 
@@ -827,11 +892,11 @@ class Inliner:
                 done.add(id(call))
                 return pre + body
             if isinstance(st, ast.Expr) and st.value is call:
-                body = _finish(_tailify(body), 'discard', None, st)
+                body = _structured(body, 'discard', None, st)
                 done.add(id(call))
                 return pre + (body or [_pass(st)])
             if isinstance(st, ast.Assign) and st.value is call:
-                body = _finish(_tailify(body), 'assign', st.targets, st)
+                body = _structured(body, 'assign', st.targets, st)
                 body = [b for b in body if not (
                     isinstance(b, ast.Assign) and len(b.targets) == 1 and
                     isinstance(b.targets[0], ast.Name) and
@@ -851,7 +916,7 @@ class Inliner:
                     tmp += '_'
                 idents.add(tmp)
                 tgt = [ast.Name(id=tmp, ctx=ast.Store())]
-                body = _finish(_tailify(body), 'assign', tgt, st)
+                body = _structured(body, 'assign', tgt, st)
                 new = ast.copy_location(ast.Name(id=tmp, ctx=ast.Load()),
                                         call)
                 for name, val in list(ast.iter_fields(st)):
